@@ -39,7 +39,7 @@ manifest = {
     "hooks": {
         "guard": "verif",
         "enable": "no hook is compiled into /repo: the concurrency checks copy the current working tree to a scratch directory at check time and instrument the copy (go/ast rewriter in /verif/instrument: lock wrappers module-wide, yield points in the anchored files); the build tag 'verif' is reserved and unused",
-        "baseline_off_cmd": "cd /repo && GOFLAGS=-mod=mod GOPROXY=off GOSUMDB=off go test -vet=off -count=1 ./core/logging/... ./core/statecache/... ./core/util/wmpt/...",
+        "baseline_off_cmd": "cd /repo && GOFLAGS=-mod=mod GOPROXY=off GOSUMDB=off go test -json -vet=off -count=1 -timeout 25m ./...",
         "source_commits": [],
         "add_only": True,
     },
